@@ -182,6 +182,7 @@ impl<'a> Ctx<'a> {
                 crate::env::Env::Unwinding => "fault:env-while-unwinding",
                 crate::env::Env::AfterThenUnwinding(_) => "fault:env-after-refused-operation-while-unwinding",
                 crate::env::Env::AfterMany { .. } => "fault:env-after-many-repetitions-of-one-operation",
+                crate::env::Env::AfterIdle { .. } => "fault:env-clock-jump-after-warm-up",
             });
             Some(e)
         } else {
